@@ -1,4 +1,8 @@
 import Pyxv.Model.Rows
+import Pyxv.Model.Refs
+import Pyxv.Model.Controls
+import Pyxv.Model.Headers
+import Pyxv.Model.Xml
 /-!
 # Choices: choice lists, select wiring, secondary instances, itemsets CSV  (property C09)
 
@@ -125,7 +129,8 @@ structure Choice where
   extras : Cells
 deriving DecidableEq, Repr, Inhabited
 
-def listKey : Str := c!"list_name"
+/-- the canonical name of the list column (`aliases.list_header`: `list_name` ↦ `list name`) -/
+def listKey : Str := c!"list name"
 
 /-- `validate_headers`: headers that are empty or contain a space (except the list name column) -/
 def badHeaders (cols : List Str) : List Str :=
@@ -232,14 +237,14 @@ def staticInst (l : Str) (cs : List Choice) : Inst :=
 structure NameInfo where
   name : Str
   path : List Str
-  /-- paths of the repeats that contain the element -/
-  reps : List (List Str)
+  /-- the element's lineage below the survey root with the kind of every node (`Pyxv.Refs.Chain`) -/
+  chain : Refs.Chain
 deriving Repr, Inhabited
 
 inductive Elem where
   | sec (name : Str) (cells : Cells)
   | q (name : Str) (cells : Cells)
-  | sel (name : Str) (path : List Str) (reps : List (List Str)) (cells : Cells) (sel ln : Str) (other : Bool)
+  | sel (name : Str) (path : List Str) (chain : Refs.Chain) (cells : Cells) (sel ln : Str) (other : Bool)
   | ext (name typ : Str)
 deriving Repr, Inhabited
 
@@ -249,6 +254,10 @@ def framePath (stack : List (Str × Bool)) : List Str := (stack.map (·.1)).reve
 def repPaths : List (Str × Bool) → List (List Str)
   | [] => []
   | (n, isRep) :: rest => (if isRep then [framePath ((n, isRep) :: rest)] else []) ++ repPaths rest
+
+/-- lineage of the frames of a stack (innermost frame first in `stack`) -/
+def stackChain (stack : List (Str × Bool)) : Refs.Chain :=
+  stack.reverse.map fun f => (f.1, if f.2 then Refs.Kind.rep else Refs.Kind.group)
 
 def otherRelevant (name : Str) : Str := c!"selected(../" ++ name ++ c!", 'other')"
 
@@ -270,21 +279,24 @@ def walk : List (Str × Bool) → List Cells → Except String (List Elem × Lis
       | none => .error "row without name"
       | some name =>
         let path := framePath stack ++ [name]
-        let reps := repPaths stack
-        let info : NameInfo := { name, path, reps }
+        let chain := stackChain stack ++ [(name, Refs.Kind.q)]
+        let info : NameInfo := { name, path, chain }
         match matchControl "begin" true t with
         | some c =>
           (match ctlOf c with
-           | some .group => (walk ((name, false) :: stack) rs).map fun (es, ns) => (.sec name r :: es, info :: ns)
-           | some .rep => (walk ((name, true) :: stack) rs).map fun (es, ns) => (.sec name r :: es, info :: ns)
+           | some .group => (walk ((name, false) :: stack) rs).map fun (es, ns) =>
+               (.sec name r :: es, { info with chain := stackChain ((name, false) :: stack) } :: ns)
+           | some .rep => (walk ((name, true) :: stack) rs).map fun (es, ns) =>
+               (.sec name r :: es, { info with chain := stackChain ((name, true) :: stack) } :: ns)
            | _ => .error "loop")
         | none =>
           match matchSelect t with
           | some (sel, ln, other) =>
             let oname := name ++ c!"_other"
             let extra : List Elem := if other then [.q oname [(c!"bind::relevant", otherRelevant name)]] else []
-            let extraN : List NameInfo := if other then [{ name := oname, path := framePath stack ++ [oname], reps }] else []
-            (walk stack rs).map fun (es, ns) => (.sel name path reps r sel ln other :: extra ++ es, info :: extraN ++ ns)
+            let extraN : List NameInfo := if other then
+              [{ name := oname, path := framePath stack ++ [oname], chain := stackChain stack ++ [(oname, Refs.Kind.q)] }] else []
+            (walk stack rs).map fun (es, ns) => (.sel name path chain r sel ln other :: extra ++ es, info :: extraN ++ ns)
           | none =>
             if t = c!"xml-external" || t = c!"csv-external" then
               (walk stack rs).map fun (es, ns) => (.ext name t :: es, info :: ns)
@@ -296,13 +308,19 @@ def lastSavedName : Str := ((Pyxv.Gen.itemsetRefs.find? fun p => p.1 = "last_sav
 
 def xpathOf (root : Str) (path : List Str) : Str := '/' :: joinWith (c!"/") (root :: path)
 
-/-- `_var_repl_function` when no relative path applies: ` /root/path ` (with `instance('__last-saved')`) -/
-def resolve (root : Str) (tbl : List NameInfo) (ctxReps : List (List Str)) (lastSaved : Bool) (name : Str) : Option Str :=
-  match tbl.filter (fun t => t.name = name) with
-  | [t] =>
-    if !lastSaved && t.reps.any (fun p => ctxReps.contains p) then none
-    else some (c!" " ++ (if lastSaved then c!"instance('" ++ lastSavedName ++ c!"')" else []) ++ xpathOf root t.path ++ c!" ")
-  | _ => none
+/-- every element of the survey in `iter_descendants` order (root, rows, generated `meta` block), as
+    `Pyxv.Refs` wants them for `_setup_xpath_dictionary` / `is_parent_a_repeat` -/
+def allChains (root : Str) (tbl : List NameInfo) : List Refs.Chain :=
+  let r : Refs.Seg := (root, Refs.Kind.group)
+  [r] :: tbl.map (fun t => r :: t.chain) ++
+    [[r, (c!"meta", Refs.Kind.group)], [r, (c!"meta", Refs.Kind.group), (c!"instanceID", Refs.Kind.q)]]
+
+/-- `_var_repl_function` through the C03 model (`Pyxv.Refs.refFor`): absolute, relative (`../x`, with
+    `current()/` for choice filters) or last-saved replacement text; `none` = unknown / ambiguous name -/
+def resolve (root : Str) (tbl : List NameInfo) (ctx : Refs.Chain) (useCurrent refParent : Bool)
+    (lastSaved : Bool) (name : Str) : Option Str :=
+  (Refs.refFor (allChains root tbl) (some ((root, Refs.Kind.group) :: ctx)) name
+    { lastSaved, useCurrent, referenceParent := refParent }).text
 
 /-- `re.sub(BRACKETED_TAG_REGEX, _var_repl_function, text)`; `none` = outside the fragment -/
 def insertXpaths (res : Bool → Str → Option Str) : Nat → Str → Option Str
@@ -322,8 +340,11 @@ def insertXpaths (res : Bool → Str → Option Str) : Nat → Str → Option St
        | _ => (insertXpaths res f cs).map (c :: ·))
     | _, _ => (insertXpaths res f cs).map (c :: ·)
 
-def subst (root : Str) (tbl : List NameInfo) (ctxReps : List (List Str)) (s : Str) : Option Str :=
-  insertXpaths (resolve root tbl ctxReps) s.length s
+/-- `insert_xpaths(text, context, use_current, reference_parent)`; texts that need the lexer-level flags of
+    `Pyxv.Refs.Flags` (`indexed-repeat(`, `instance(` predicates) are outside the fragment -/
+def subst (root : Str) (tbl : List NameInfo) (ctx : Refs.Chain) (useCurrent refParent : Bool) (s : Str) : Option Str :=
+  if isInfix c!"indexed-repeat(" s || isInfix c!"instance(" s then none
+  else insertXpaths (resolve root tbl ctx useCurrent refParent) s.length s
 
 /-! ## 6. the itemset of a select (`MultipleChoiceQuestion.build_xml`) -/
 
@@ -518,6 +539,28 @@ def emitInsts : List Inst → List Inst → Option (List Inst)
     | some prior => if prior.src ≠ i.src then none else emitInsts seen rest
     | none => (emitInsts (i :: seen) rest).map (i :: ·)
 
+/-! ### rendering: the DOM elements of the instances (`Pyxv.Xml`) -/
+
+/-- `node("instance", …, id=…, src=…)` / `node("instance", node("root", item…), id=…)` (survey.py 370-425) -/
+def instNode (i : Inst) : Xml.Node :=
+  match i.src with
+  | some u => .elem c!"instance" [(c!"id", i.name), (c!"src", u)] []
+  | none => .elem c!"instance" [(c!"id", i.name)]
+      [.elem c!"root" [] (i.items.map fun it => .elem c!"item" [] (it.map fun kv => .elem kv.1 [] [.text false kv.2]))]
+
+/-- the `id` of an `<instance>` element -/
+def instanceId : Xml.Node → Option Str
+  | .elem t a _ => if t = c!"instance" then lookup c!"id" a else none
+  | .text _ _ => none
+
+/-- ids of the `<instance id=…>` children of an element, in document order -/
+def instanceIds : Xml.Node → List Str
+  | .elem _ _ ks => ks.filterMap instanceId
+  | .text _ _ => []
+
+/-- the text `Survey._to_ugly_xml` writes for one instance element -/
+def instText (i : Inst) : Str := Xml.render [] [] [] (instNode i)
+
 /-! ## 8. itemsets CSV -/
 
 /-- one cell under `QUOTE_ALL`: quotes doubled, wrapped in quotes -/
@@ -620,6 +663,8 @@ structure Input where
   choiceCols : List Str
   allowDup : Option Str
   survey : List Cells
+  /-- header row of the survey sheet (decides `use_double_colon`) -/
+  surveyCols : List Str := []
   extHeader : List Str
   extRows : Option (List Cells)
 deriving Repr, Inhabited
@@ -658,6 +703,54 @@ def cleanRow (r : Cells) : Cells := r.map fun kv => (kv.1, cleanCell kv.2)
 def Input.cleaned (inp : Input) : Input :=
   { inp with choices := inp.choices.map cleanRow, extRows := inp.extRows.map fun rows => rows.map cleanRow }
 
+/-! ### header dealiasing (`dealias_and_group_headers` via `Pyxv.Headers.processHeader`) and the
+`parameters` cell (`parameters_generic.parse` via `Pyxv.Controls.parseParams`): raw sheets → canonical cells -/
+
+/-- canonical flattened key of a header: the tokens of `process_header` joined with `::` -/
+def canonKey (useDouble : Bool) (aliases : List (Str × List Str)) (columns : List Str) (h : Str) : Option Str :=
+  match Headers.processHeader h useDouble aliases columns with
+  | .ok (_, toks) => some (joinWith c!"::" toks)
+  | .error _ => none
+
+/-- header ↦ canonical key for one sheet; two headers with the same canonical key are outside the fragment
+    (`INVALID_DUPLICATE` or a silent merge) -/
+def headerMap (aliases : List (Str × List Str)) (columns : List Str) (cols : List Str) : Option (List (Str × Str)) :=
+  let useDouble := cols.any fun h => isInfix c!"::" h
+  match cols.mapM fun h => (canonKey useDouble aliases columns h).map fun k => (h, k) with
+  | none => none
+  | some m => if (m.map (·.2)).all (fun k => (m.map (·.2)).count k ≤ 1) then some m else none
+
+def canonRow (m : List (Str × Str)) (r : Cells) : Option Cells :=
+  r.mapM fun kv => (lookup kv.1 m).map fun k => (k, kv.2)
+
+/-- `parameters_generic.parse(row["parameters"])` spread into `parameters::<key>` cells -/
+def expandParams (r : Cells) : Option Cells :=
+  match lookup c!"parameters" r with
+  | none => some r
+  | some raw =>
+    if !Controls.isAscii raw then none else
+    match Controls.parseParams raw with
+    | none => none
+    | some ps => some ((r.filter fun kv => kv.1 ≠ c!"parameters") ++ ps.map fun kv => (c!"parameters::" ++ kv.1, kv.2))
+
+/-- the three sheets with canonical keys; `none` = outside the fragment -/
+def Input.canon (inp : Input) : Option Input := do
+  let cm ← headerMap Headers.listAliases Headers.listColumns inp.choiceCols
+  let choices ← inp.choices.mapM (canonRow cm)
+  let sm ← headerMap Headers.surveyAliases Headers.surveyColumns inp.surveyCols
+  let survey0 ← inp.survey.mapM (canonRow sm)
+  let survey ← survey0.mapM expandParams
+  pure { inp with choices, choiceCols := cm.map (·.2), survey }
+
+/-- list names of the external_choices sheet (its header is dealiased like the choices sheet's) -/
+def extListNames (inp : Input) : Option (List Str) :=
+  match inp.extRows with
+  | none => some []
+  | some rows => do
+    let m ← headerMap Headers.listAliases Headers.listColumns inp.extHeader
+    let rs ← rows.mapM (canonRow m)
+    pure ((groupByKey listKey rs).map (·.1))
+
 /-- `dict.fromkeys(k for d in rows for k in d)`: header fallback of `external_choices_to_csv` (utils.py 190-195) -/
 def firstKeys (rows : List Cells) : List Str :=
   (rows.flatMap fun r => r.map (·.1)).foldl (fun acc k => if acc.contains k then acc else acc ++ [k]) []
@@ -694,16 +787,16 @@ def inlineItems (l : Str) (cs : List Choice) (qHasLabel : Bool) : Option (List (
 
 /-- one select element → its observation (`none` = outside the fragment) -/
 def selObs (inp : Input) (tbl : List NameInfo) (lists : List (Str × List Choice)) (extLists : List Str)
-    (name : Str) (path : List Str) (reps : List (List Str)) (cells : Cells) (sel ln : Str) (other : Bool) : Except String SelObs := do
+    (name : Str) (path : List Str) (chain : Refs.Chain) (cells : Cells) (sel ln : Str) (other : Bool) : Except String SelObs := do
   if has cells "bind::calculate" || has cells "trigger" then throw "select with calculate / trigger"
   let filterRaw := (lookup (c!"choice_filter") cells).getD []
   let params := paramsOf cells
   let ext := (splitext ln).2
   let isPrev := hasBraceRef ln
   let ref := xpathOf inp.root path
-  let sub (s : Str) : Except String Str := match subst inp.root tbl reps s with
+  let sub (useCurrent refParent : Bool) (s : Str) : Except String Str := match subst inp.root tbl chain useCurrent refParent s with
     | some x => pure x
-    | none => throw "reference outside the absolute fragment"
+    | none => throw "reference outside the fragment"
   let otherObs : Option (Str × Str × Str) :=
     if other then some (otherRelevant name, c!"string", c!"yes") else none
   -- parameters (xls2json.py 1092-1131)
@@ -715,7 +808,7 @@ def selObs (inp : Input) (tbl : List NameInfo) (lists : List (Str × List Choice
     if filterRaw.isEmpty then throw "select_one_external without filter"
     if !extLists.contains ln then throw "external list missing"
     if other then throw "or_other on external"
-    let pred ← sub filterRaw
+    let pred ← sub true false filterRaw
     return { ref, tag := tagOf sel, itemset := none, items := [],
              query := some (c!"instance('" ++ ln ++ c!"')/root/item[" ++ pred ++ c!"]"), other := none }
   let known := (lookup ln lists).isSome
@@ -733,11 +826,11 @@ def selObs (inp : Input) (tbl : List NameInfo) (lists : List (Str × List Choice
     match inlineItems ln cs (hasLabelCell cells) with
     | none => throw "search with unlabeled choice"
     | some items => return { ref, tag := tagOf sel, itemset := none, items, query := none, other := otherObs }
-  let filter ← if filterRaw.isEmpty then pure [] else sub filterRaw
+  let filter ← if filterRaw.isEmpty then pure [] else sub true isPrev filterRaw
   let seedSub ← match lookup (c!"seed") params with
-    | some s => if startsWith s (c!"${") then (do let x ← sub s; pure (strip x)) else pure []
+    | some s => if startsWith s (c!"${") then (do let x ← sub false false s; pure (strip x)) else pure []
     | none => pure []
-  let prevSub ← if isPrev then (do let x ← sub ln; pure (strip x)) else pure []
+  let prevSub ← if isPrev then (do let x ← sub false true ln; pure (strip x)) else pure []
   let q : SelIn := { itemset := ln, filter, params, seedSub, prevSub,
                      choicesItext := known && requiresItext cs }
   return { ref, tag := tagOf sel, itemset := some (itemsetOf q), items := [], query := none, other := otherObs,
@@ -746,8 +839,8 @@ def selObs (inp : Input) (tbl : List NameInfo) (lists : List (Str × List Choice
 def selsObs (inp : Input) (tbl : List NameInfo) (lists : List (Str × List Choice)) (extLists : List Str) :
     List Elem → Except String (List SelObs)
   | [] => pure []
-  | .sel name path reps cells sel ln other :: es => do
-    let o ← selObs inp tbl lists extLists name path reps cells sel ln other
+  | .sel name path chain cells sel ln other :: es => do
+    let o ← selObs inp tbl lists extLists name path chain cells sel ln other
     let r ← selsObs inp tbl lists extLists es
     pure (o :: r)
   | _ :: es => selsObs inp tbl lists extLists es
@@ -782,9 +875,9 @@ def runCore (inp : Input) : Outcome :=
   | .error w => .unsupported w
   | .ok (es, tbl) =>
   let lists := applyOthers es lists0
-  let extLists := match inp.extRows with
-    | some rows => (groupByKey listKey rows).map (·.1)
-    | none => []
+  match extListNames inp with
+  | none => .unsupported "external_choices header"
+  | some extLists =>
   match selsObs inp tbl lists extLists es with
   | .error w => .unsupported w
   | .ok sels =>
@@ -800,6 +893,9 @@ def runCore (inp : Input) : Outcome :=
     .ok { instances := out, selects := sels, csv }
 
 /-- the observation of a workbook: the two sheets are cleaned first -/
-def run (inp : Input) : Outcome := runCore inp.cleaned
+def run (inp : Input) : Outcome :=
+  match inp.canon with
+  | none => .unsupported "header / parameters cell"
+  | some c => runCore c.cleaned
 
 end Pyxv.Choices
